@@ -1,15 +1,27 @@
 #!/usr/bin/env python3
-# Summarises /verif/seeded/*/meta.json into /verif/seeded/RESULTS.md
-import json,glob,os
+# Summarises /verif/seeded/*/meta.json (verdict of all 20 checks when the change was first evaluated) and
+# /verif/seeded/own_eval.log (current verdict of the change's OWN property check, written by tools/own_eval.sh)
+# into /verif/seeded/RESULTS.md
+import json,glob,os,re
+own={}
+p='/verif/seeded/own_eval.log'
+if os.path.exists(p):
+    for l in open(p):
+        m=re.match(r'(ok|MISS)\s+(C\d\d-[A-Z])\s+\(valid=(\w+)\)\s*(.*)',l)
+        if m: own[m.group(2)]=(m.group(1),m.group(4).strip()[:150].replace('|','/'))
 rows=[]
 for d in sorted(glob.glob('/verif/seeded/C*-*')):
     m=json.load(open(d+'/meta.json'))
-    rows.append((os.path.basename(d), m.get('valid'), m.get('what_it_breaks','')[:140].replace('|','/'), m.get('needs_to_manifest','')[:140].replace('|','/'), ', '.join(sorted(set(c.split(':')[0] for c in m.get('caught_by',[])))) or '**missed**', (m.get('caught_by') or [''])[0][:160].replace('|','/')))
+    name=os.path.basename(d)
+    first=', '.join(sorted(set(c.split(':')[0] for c in m.get('caught_by',[])))) or '**missed**'
+    now=own.get(name,('?',''))
+    rows.append((name, m.get('valid'), m.get('what_it_breaks','')[:140].replace('|','/'), m.get('needs_to_manifest','')[:120].replace('|','/'), first, 'caught' if now[0]=='ok' else ('**missed**' if now[0]=='MISS' else '?'), now[1]))
 with open('/verif/seeded/RESULTS.md','w') as f:
     f.write('# Seeded changes written by independent sub-agents (given only the property text)\n\n')
-    f.write('Each directory holds patch.diff, the demonstration and meta.json (incl. what was run to confirm it: build, 66/66 baseline, demo fails with / passes without the change, all 20 checks on a scratch worktree).\n\n')
-    f.write('| id | confirmed | breaks | needs | caught by | first report |\n|---|---|---|---|---|---|\n')
-    for r in rows: f.write('| %s | %s | %s | %s | %s | %s |\n'%r)
-    n=len(rows); c=sum(1 for r in rows if r[4]!='**missed**')
-    f.write('\n%d confirmed changes, %d caught by at least one check.\n'%(n,c))
-print(open('/verif/seeded/RESULTS.md').read()[-200:])
+    f.write('Each directory holds patch.diff, the demonstration and meta.json (incl. what was run to confirm it: build, 66/66 baseline, demo fails with / passes without the change, all 20 checks on a scratch worktree). Round 1: A,B; round 2: C,D,E; round 3: F,G.\n\n')
+    f.write('"first evaluation" = checks that reported the change when it was first evaluated (before any rule was strengthened for it); "own check now" = verdict of the check of the change\'s own property on the current checker (tools/own_eval.sh).\n\n')
+    f.write('| id | demo confirmed | breaks | needs | first evaluation | own check now | report |\n|---|---|---|---|---|---|---|\n')
+    for r in rows: f.write('| %s | %s | %s | %s | %s | %s | %s |\n'%r)
+    n=len(rows); c=sum(1 for r in rows if r[4]!='**missed**'); o=sum(1 for r in rows if r[5]=='caught')
+    f.write('\n%d changes; %d reported by at least one check at first evaluation; %d reported by the check of their own property now.\n'%(n,c,o))
+print(open('/verif/seeded/RESULTS.md').read()[-220:])
